@@ -17,7 +17,21 @@ static inline Bytes pat(size_t n, unsigned tag)
     return b;
 }
 
-// prior contents: 0 none, 1 shorter, 2 longer, 3 same length different bytes
+// prior contents: 0 none, 1 shorter, 2 longer, 3 same length different bytes; 4 / 5 raw image with trailing bytes (see below).
+// prior + 10: the same, and every getter of the object is called BETWEEN the two builder calls (an observation is an operation too:
+// whatever a getter remembers must not survive the next setData)
+static volatile uint64_t g_sink;
+template <class T>
+static inline void touchData(const T& p)
+{
+    uint64_t h = p.getLength();
+    const uint8_t* d = p.getData();
+    h = h * 31 + (uint64_t) p.getDataLength();
+    if (d && p.getDataLength())
+        h = h * 31 + d[0] + d[p.getDataLength() - 1];
+    h = h * 31 + (p.getRawPayload() ? p.getRawPayload()[0] : 0);
+    g_sink = h;
+}
 static inline size_t priorLen(int prior, size_t len, size_t maxLen)
 {
     switch (prior)
@@ -87,6 +101,9 @@ template <class T>
 static void canLike(W& w, const char* cls, uint8_t pt, uint32_t fullType, int prior, size_t len, int hv = 0)
 {
     const bool remote = hv & 1, alt = hv & 2;
+    const bool look = prior >= 10;
+    const int prior0 = prior;
+    prior %= 10;
     auto hdr = [remote, alt](T& p) {
         p.setId(0x12345678 & 0x1FFFFFFF); p.setIde(!alt); p.setRsvd(alt); p.setFlags(alt ? 0x2800 : 0x0C00); p.setCrcSupport(!alt); p.setErrorPosition(0);
         setRemoteBit(p, remote);
@@ -100,6 +117,11 @@ static void canLike(W& w, const char* cls, uint8_t pt, uint32_t fullType, int pr
     }
     if (prior >= 4)
         p = fromImageWithTrail<T>(hdr, prior == 4 ? len : len / 2);
+    if (look)
+    {
+        touchData(p);
+        g_sink = p.getId() + p.getDlc() + p.getCrc() + p.getFlags() + p.getErrorPosition() + T::isValidPayload(p.getRawPayload(), p.getLength());
+    }
     Bytes d = pat(len, 1);
     p.setData(d.data(), (uint8_t) len);
     w.add(mc::C_TRANS, 2);
@@ -135,13 +157,16 @@ static void canLike(W& w, const char* cls, uint8_t pt, uint32_t fullType, int pr
     if (fr != raw)
         w.fail("builder:raw-bytes-depend-on-history:" + k, ofmt("prior contents %d then setData(%zu bytes): raw %s..., fresh object: %s...", prior, len, mc::hex(raw.data(), std::min<size_t>(raw.size(), 40)).c_str(),
                                                               mc::hex(fr.data(), std::min<size_t>(fr.size(), 40)).c_str()));
-    w.outcome(mc::mix(mc::fnv_s(k), mc::mix(len, prior * 4 + hv)));
+    w.outcome(mc::mix(mc::fnv_s(k), mc::mix(len, prior0 * 4 + hv)));
 }
 
 static inline void lin(W& w, int prior, size_t len)
 {
     using T = A::LinPayload;
     auto hdr = [](T& p) { p.setLinId(0x2A); p.setParityBits(2); p.setChecksum(0xC3); p.setFlags(0x0100); };
+    const bool look = prior >= 10;
+    const int prior0 = prior;
+    prior %= 10;
     T p;
     hdr(p);
     if (prior && prior < 4)
@@ -151,6 +176,11 @@ static inline void lin(W& w, int prior, size_t len)
     }
     if (prior >= 4)
         p = fromImageWithTrail<T>(hdr, prior == 4 ? len : len / 2);
+    if (look)
+    {
+        touchData(p);
+        g_sink = p.getLinId() + p.getChecksum() + p.getFlags() + T::isValidPayload(p.getRawPayload(), p.getLength());
+    }
     Bytes d = pat(len, 2);
     p.setData(d.data(), (uint8_t) len);
     w.add(mc::C_TRANS, 2);
@@ -176,12 +206,15 @@ static inline void lin(W& w, int prior, size_t len)
     fresh.setData(d.data(), (uint8_t) len);
     if (Bytes(fresh.getRawPayload(), fresh.getRawPayload() + fresh.getLength()) != raw)
         w.fail("builder:raw-bytes-depend-on-history:" + k, ofmt("prior contents %d then setData(%zu bytes) differs from a fresh object", prior, len));
-    w.outcome(mc::mix(mc::fnv_s(k), mc::mix(len, prior)));
+    w.outcome(mc::mix(mc::fnv_s(k), mc::mix(len, prior0)));
 }
 
 static inline void eth(W& w, int prior, size_t len)
 {
     using T = A::EthernetPayload;
+    const bool look = prior >= 10;
+    const int prior0 = prior;
+    prior %= 10;
     T p;
     p.setFlags(0x00C4);
     if (prior && prior < 4)
@@ -191,6 +224,11 @@ static inline void eth(W& w, int prior, size_t len)
     }
     if (prior >= 4)
         p = fromImageWithTrail<T>([](T& q) { q.setFlags(0x00C4); }, prior == 4 ? len : len / 2);
+    if (look)
+    {
+        touchData(p);
+        g_sink = p.getFlags() + T::isValidPayload(p.getRawPayload(), p.getLength());
+    }
     Bytes d = pat(len, 3);
     p.setData(d.data(), (uint16_t) len);
     w.add(mc::C_TRANS, 2);
@@ -216,11 +254,14 @@ static inline void eth(W& w, int prior, size_t len)
     fresh.setData(d.data(), (uint16_t) len);
     if (Bytes(fresh.getRawPayload(), fresh.getRawPayload() + fresh.getLength()) != raw)
         w.fail("builder:raw-bytes-depend-on-history:" + k, ofmt("prior contents %d then setData(%zu bytes) differs from a fresh object", prior, len));
-    w.outcome(mc::mix(mc::fnv_s(k), mc::mix(len, prior)));
+    w.outcome(mc::mix(mc::fnv_s(k), mc::mix(len, prior0)));
 }
 
 static inline void analog(W& w, int prior, size_t len, int dt)
 {
+    const bool look = prior >= 10;
+    const int prior0 = prior;
+    prior %= 10;
     using T = A::AnalogPayload;
     auto hdr = [dt](T& p) {
         p.setSampleDt(dt ? T::SampleDt::aInt32 : T::SampleDt::aInt16); p.setUnit(T::Unit::volt); p.setSampleInterval(0.25f); p.setSampleOffset(-2.0f); p.setSampleScalar(3.5f);
@@ -232,6 +273,8 @@ static inline void analog(W& w, int prior, size_t len, int dt)
         Bytes pd = pat(priorLen(prior, len, 65519), 7);
         p.setData(pd.data(), pd.size());
     }
+    if (look)
+        g_sink = p.getSamplesCount() + (uint64_t) (uintptr_t) p.getData() + p.getLength() + T::isValidPayload(p.getRawPayload(), p.getLength());
     Bytes d = pat(len, 4);
     p.setData(d.data(), len);
     w.add(mc::C_TRANS, 2);
@@ -257,7 +300,7 @@ static inline void analog(W& w, int prior, size_t len, int dt)
     fresh.setData(d.data(), len);
     if (Bytes(fresh.getRawPayload(), fresh.getRawPayload() + fresh.getLength()) != raw)
         w.fail("builder:raw-bytes-depend-on-history:" + k, ofmt("prior contents %d then setData(%zu bytes) differs from a fresh object", prior, len));
-    w.outcome(mc::mix(mc::fnv_s(k), mc::mix(len, prior * 2 + dt)));
+    w.outcome(mc::mix(mc::fnv_s(k), mc::mix(len, prior0 * 2 + dt)));
 }
 
 static const size_t kStrLens[5] = {0, 1, 2, 3, 1000};
@@ -276,12 +319,26 @@ static inline void cm(W& w, int prior, const size_t slen[4], size_t vlen)
         p.setUptime(0x0102030405060708ull); p.setGmIdentity(0x1112131415161718ull); p.setGmClockQuality(0x21222324); p.setCurrentUtcOffset(0x3132); p.setTimeSource(0x41);
         p.setDomainNumber(0x51); p.setGptpFlags(0x61);
     };
+    const bool look = prior >= 10;
+    const int prior0 = prior;
+    prior %= 10;
     T p;
     hdr(p);
     if (prior == 1)
         p.setData("x", "", "yy", "", {7});
     else if (prior == 2)
         p.setData(strOf(1200, 3), strOf(5, 4), strOf(7, 5), strOf(1100, 6), Bytes(9, 0xEE));
+    else if (prior == 3)
+        // the same section lengths in ROTATED order and as many vendor bytes: the payload has the same total size, only the section
+        // boundaries move (no reallocation, no resize - nothing that would make a remembered offset look out of date)
+        p.setData(strOf(slen[1], 7), strOf(slen[2], 8), strOf(slen[3], 9), strOf(slen[0], 10), Bytes(vlen, 0xE1));
+    if (look)
+    {
+        g_sink = p.getDeviceDescription().size() + p.getSerialNumber().size() + p.getHardwareVersion().size() + p.getSoftwareVersion().size() + p.getVendorDataLength() +
+                 (uint64_t) (uintptr_t) p.getVendorData() + T::isValidPayload(p.getRawPayload(), p.getLength());
+        auto vd = p.getVendorDataStringView();
+        g_sink = g_sink + vd.size();
+    }
     std::string s[4];
     for (int i = 0; i < 4; ++i)
         s[i] = strOf(slen[i], (char) (i + 1));
@@ -337,7 +394,7 @@ static inline void cm(W& w, int prior, const size_t slen[4], size_t vlen)
     fresh.setData(s[0], s[1], s[2], s[3], v);
     if (Bytes(fresh.getRawPayload(), fresh.getRawPayload() + fresh.getLength()) != raw)
         w.fail("builder:raw-bytes-depend-on-history:" + k, ofmt("prior contents %d then setData differs from a fresh object", prior));
-    w.outcome(mc::mix(mc::fnv_s(k), mc::mix(raw.size(), prior)));
+    w.outcome(mc::mix(mc::fnv_s(k), mc::mix(raw.size(), prior0)));
 }
 
 static inline void iface(W& w, int prior, size_t sc, size_t vlen)
@@ -348,8 +405,17 @@ static inline void iface(W& w, int prior, size_t sc, size_t vlen)
         p.setErrorsTotalRx(0x51525354); p.setErrorsTotalTx(0x61626364); p.setInterfaceType(0x71); p.setInterfaceStatus(T::InterfaceStatus::disabled);
         p.setFeatureSupportBitmask(0x81828384);
     };
+    const bool look = prior >= 10;
+    const int prior0 = prior;
+    prior %= 10;
     T p;
     hdr(p);
+    if (prior == 4)
+    {
+        // same total size, the boundary between stream ids and vendor data moved by two
+        Bytes s2(sc + 2, 0xB1), v2(vlen >= 2 ? vlen - 2 : vlen + 2, 0xC1);
+        p.setData(s2.data(), (uint16_t) s2.size(), v2.data(), (uint16_t) v2.size());
+    }
     if (prior == 1)
     {
         uint8_t s1[1] = {0xAA};
@@ -365,6 +431,9 @@ static inline void iface(W& w, int prior, size_t sc, size_t vlen)
         Bytes s2(sc, 0xDD), v2(vlen, 0xDE);
         p.setData(s2.data(), (uint16_t) sc, v2.data(), (uint16_t) vlen);
     }
+    if (look)
+        g_sink = p.getStreamIdsCount() + (uint64_t) (uintptr_t) p.getStreamIds() + p.getVendorDataLength() + (uint64_t) (uintptr_t) p.getVendorData() + p.getInterfaceId() +
+                 T::isValidPayload(p.getRawPayload(), p.getLength());
     Bytes s = pat(sc, 5), v = pat(vlen, 6);
     p.setData(s.data(), (uint16_t) sc, v.data(), (uint16_t) vlen);
     w.add(mc::C_TRANS, 2);
@@ -404,7 +473,7 @@ static inline void iface(W& w, int prior, size_t sc, size_t vlen)
     fresh.setData(s.data(), (uint16_t) sc, v.data(), (uint16_t) vlen);
     if (Bytes(fresh.getRawPayload(), fresh.getRawPayload() + fresh.getLength()) != raw)
         w.fail("builder:raw-bytes-depend-on-history:" + k, ofmt("prior contents %d then setData(%zu ids, %zu vendor bytes) differs from a fresh object", prior, sc, vlen));
-    w.outcome(mc::mix(mc::fnv_s(k), mc::mix(raw.size(), prior)));
+    w.outcome(mc::mix(mc::fnv_s(k), mc::mix(raw.size(), prior0)));
 }
 
 static inline void runCase(W& w, const std::string& cs)
@@ -464,7 +533,7 @@ static int runC13(mc::Run& run, const mc::Options& opt)
         return run.run_single(cs);
     }
     std::vector<std::string> cases;
-    for (int prior = 0; prior < 4; ++prior)
+    for (int prior : {0, 1, 2, 3, 11, 12, 13})
     {
         for (size_t len = 0; len <= 255; ++len)
         {
@@ -486,7 +555,11 @@ static int runC13(mc::Run& run, const mc::Options& opt)
         for (size_t sc : {(size_t) 0, (size_t) 1, (size_t) 2, (size_t) 3, (size_t) 4, (size_t) 5, (size_t) 255, (size_t) 256, (size_t) 1001})
             for (size_t v : {(size_t) 0, (size_t) 1, (size_t) 2, (size_t) 3, (size_t) 255, (size_t) 1000})
                 cases.push_back(ofmt("cls=if;prior=%d;sc=%zu;v=%zu", prior, sc, v));
-        if (prior < 3)
+        if (prior % 10 == 3)
+            for (size_t sc : {(size_t) 0, (size_t) 1, (size_t) 2, (size_t) 3, (size_t) 4, (size_t) 5, (size_t) 255, (size_t) 256, (size_t) 1001})
+                for (size_t v : {(size_t) 0, (size_t) 1, (size_t) 2, (size_t) 3, (size_t) 255, (size_t) 1000})
+                    cases.push_back(ofmt("cls=if;prior=%d;sc=%zu;v=%zu", prior + 1, sc, v));   // prior kind 4 (14): same total size, boundary moved
+        if (true)
             for (int a = 0; a < 5; ++a)
                 for (int b = 0; b < 5; ++b)
                     for (int c = 0; c < 5; ++c)
@@ -495,7 +568,7 @@ static int runC13(mc::Run& run, const mc::Options& opt)
                                 cases.push_back(ofmt("cls=cm;prior=%d;s=%d,%d,%d,%d;v=%zu", prior, a, b, c, d, v));
     }
     // prior state constructed from a raw image with trailing bytes (kinds 4: same data length as the new data, 5: half of it)
-    for (int prior = 4; prior <= 5; ++prior)
+    for (int prior : {4, 5, 14, 15})
     {
         for (size_t len = 0; len <= 255; ++len)
         {
@@ -509,7 +582,7 @@ static int runC13(mc::Run& run, const mc::Options& opt)
     }
     // capture-module sections at the byte / sign boundaries of the 16-bit length prefix (declared length = characters + NUL,
     // padded to even): one section at a time
-    for (int prior = 0; prior < 3; ++prior)
+    for (int prior : {0, 1, 2, 3, 11, 12, 13})
         for (int sec = 0; sec < 5; ++sec)
             for (size_t len : {(size_t) 124, (size_t) 125, (size_t) 126, (size_t) 127, (size_t) 128, (size_t) 200, (size_t) 252, (size_t) 253, (size_t) 254, (size_t) 255, (size_t) 256,
                                (size_t) 382, (size_t) 383, (size_t) 384, (size_t) 32766, (size_t) 32767, (size_t) 32768})
